@@ -203,7 +203,7 @@ ZoneBases ==
         <<T("owner", "www"), T("type", "A"), T("ip", "192.0.2.1")>>,
         <<T("owner", "mail"), T("type", "MX"), T("int", "10"), T("name", "mail")>> >>],
      \* nothing but a comment: a zone without records (and, without an origin argument, without origin)
-     Z3 |-> [sep |-> " ", nl |-> TRUE, lines |-> << <<T("any", "; no records")>> >>]]
+     Z3 |-> [sep |-> " ", nl |-> TRUE, lines |-> << <<T("comment", "; no records")>> >>]]
 MsgTBases ==
     [X1 |-> [sep |-> " ", nl |-> TRUE, lines |-> <<
         <<T("any", "id"), T("int", "1234")>>,
@@ -354,6 +354,7 @@ SpecVerdict(h) == IF h = <<>> THEN "ok" ELSE IF \E i \in 1..Len(h) : h[i][1] = "
 
 FixedLine(line) == \E i \in 1..Len(line) : line[i][1] = "dir" \/ (line[i][1] = "type" /\ line[i][2] \in {"SOA", "NS", "A", "MX"})
 TokVerdict(k, role, v, last) ==
+    IF role = "comment" THEN "free" ELSE      \* anything goes inside a comment
     CASE v \in {"unterm", "nlq", "popen", "pclose", "badttl", "bogus", "bigtype", "bigclass", "long", "dirgarbage"} -> "err"
       [] v = "empty" -> IF last THEN "free" ELSE "err"       \* "a." is a name, "a..b" is not
       [] v = "emptyq" -> IF role \in {"str", "any"} THEN "free" ELSE "err"
